@@ -209,8 +209,9 @@ def run(ctx):
                     ctx.mismatch("gapGuard", replay, impl_guard, out)
                     continue
                 impl_guard = impl_guard[0]
-                ctx.count("gapGuard:%s,%s" % (impl_guard, "converged" if converged else "an-order-fails"))
-                if impl_guard:
+                kind = "" if req["b"][0] in ("replace", "replaceAround") else "-mark"
+                ctx.count("gapGuard%s:%s,%s" % (kind, impl_guard, "converged" if converged else "an-order-fails"))
+                if impl_guard and not kind:
                     # the further hypotheses of `commute_succeeds_around_gap`: closed slice (`hcl`), aligned ends (`hdbal`)
                     ctx.count("gapGuard-true:slice-closed=%s,ends-aligned=%s" % (mo[1], mo[2]))
                 if impl_guard and not converged:
@@ -316,8 +317,10 @@ def run(ctx):
                             da_, db_, x2, y2, dxy, dyx = sq
                             if da_ is None or db_ is None:
                                 break
-                            if isinstance(y, (ReplaceStep, ReplaceAroundStep)):
-                                stg, g = outcome(lambda: (inside_gap(d, x, y), x.slice.open_start == 0 and x.slice.open_end == 0))
+                            if isinstance(y, (ReplaceStep, ReplaceAroundStep, AddMarkStep, RemoveMarkStep)):
+                                # mark steps: `commute_succeeds_around_mark_gap_partial` (the guard on the slice they re-mark)
+                                stg, g = outcome(lambda: (inside_gap(d, x, y if hasattr(y, "slice") else AsReplace(y, d)),
+                                                          x.slice.open_start == 0 and x.slice.open_end == 0))
                                 if stg == "ok":
                                     sreqs.append({"op": "gapGuard", "s": info.lean_id, "doc": info.node(d), "a": info.step(x), "b": info.step(y)})
                                     smetas.append((greplay, g, x2 is not None and y2 is not None and dxy is not None
